@@ -233,8 +233,11 @@ Proof. split; reflexivity. Qed.
    erasure theorem, and for a reason: terminate_child does not own the slow-timeout interval sleep,
    so it keeps counting while the run is stopped; when the loop is re-entered after the kill, the
    interval may have expired although less than a period of running time has passed, and the
-   attempt is marked slow. (Minor: the unit is already dead. Recorded in docs/notes/UnitHistory.md.) *)
-Example C12_same_results_refuted_for_a_stop_during_signal_termination :
+   attempt is marked slow. Finding F17 (known_findings.json), reproduced end to end (3 of 3 runs):
+   minor -- the unit is already dead -- but it is stopped time counted by the slow-timeout clock.
+   The class: a Stop delivered after a shutdown request; [C12_same_results_any_history] and
+   [C09_slow_iff] are the statements outside it. *)
+Example C12_same_results_refuted_for_a_stop_during_signal_termination_F17 :
   let cfg := {| period := 50; terminate_after := None; grace := 7; leak_timeout := 1 |} in
   let es := [Req (RShutdown (Once SInt)); Req RStop; Tick 100; Req RContinue; Tick 7; FireGrace;
              FireInterval; ChildExit false; FdsDone] in
